@@ -1,6 +1,7 @@
 import Pacti.Driver.Wire
 import Pacti.Model.Simplex
 import Pacti.Model.Poly
+import Pacti.Model.Contract
 open Lean Wire
 
 def theOracle : Oracle := checkedOracle Simplex.solve
@@ -18,6 +19,16 @@ def jExcept {α} (r : Except Err α) (f : α → Json) : Json :=
 
 def jVerdict : Poly.Verdict → Json
   | .yes => "yes" | .no => "no" | .gray => "gray"
+
+def getContract (j : Json) : Except String PContract := do
+  let a ← getTL (← j.getObjVal? "a")
+  let g ← getTL (← j.getObjVal? "g")
+  let ins ← getVars (← j.getObjVal? "ins")
+  let outs ← getVars (← j.getObjVal? "outs")
+  pure ⟨a, g, ins, outs⟩
+
+def jContract (c : PContract) : Json :=
+  Json.mkObj [("a", jTL c.a), ("g", jTL c.g), ("ins", jVars c.ins), ("outs", jVars c.outs)]
 
 def handle (j : Json) : Except String Json := do
   let op ← (← j.getObjVal? "op").getStr?
@@ -47,6 +58,18 @@ def handle (j : Json) : Except String Json := do
       let c ← Poly.containsBehavior r b
       pure (Json.arr #[Json.bool a, jVerdict f, Json.bool c])
     pure (jExcept res id)
+  | "refinesC" =>
+    let c ← getContract (← j.getObjVal? "c")
+    let d ← getContract (← j.getObjVal? "d")
+    pure (jExcept (Poly.refinesC theOracle c d) jVerdict)
+  | "contains_env" =>
+    let c ← getContract (← j.getObjVal? "c")
+    let l ← getTL (← j.getObjVal? "terms")
+    pure (jExcept (Poly.containsEnvironment theOracle c l) jVerdict)
+  | "contains_impl" =>
+    let c ← getContract (← j.getObjVal? "c")
+    let l ← getTL (← j.getObjVal? "terms")
+    pure (jExcept (Poly.containsImplementation theOracle c l) jVerdict)
   | "simplify" =>
     let l ← getTL (← j.getObjVal? "terms")
     let ctx ← match j.getObjVal? "ctx" with
